@@ -70,10 +70,19 @@ if [ $RC -eq 1 ]; then
   MIRI_NOTE="not run: the lock-step half already reported a violation"
 elif [ "${VERIF_MIRI:-1}" != "0" ]; then
   if [ "$TIER" = "thorough" ]; then NSEEDS="${VERIF_MIRI_SEEDS:-64}"; else NSEEDS="${VERIF_MIRI_SEEDS:-16}"; fi
-  # bounded: an evaluation that spins or blocks under Miri's scheduler must not hang the check
-  ( cd sim/c18_miri && MIRIFLAGS="-Zmiri-many-seeds=0..$NSEEDS -Zmiri-preemption-rate=0.1" timeout -k 10 "${VERIF_MIRI_TIMEOUT:-900}" cargo +nightly miri run --offline "${CARGO_CFG[@]}" ) > target/c18_miri.log 2>&1
-  MIRI_RC=$?
-  [ $MIRI_RC -eq 124 ] && echo "miri run timed out after ${VERIF_MIRI_TIMEOUT:-900}s" >> target/c18_miri.log
+  # in batches of 8 seeds (many more interpreters at once oversubscribe the machine: 16 at once take
+  # six times as long as two batches of 8); each batch is bounded, so that an evaluation which spins or
+  # blocks under Miri's scheduler cannot hang the check
+  : > target/c18_miri.log
+  MIRI_RC=0; FROM=0
+  while [ $FROM -lt $NSEEDS ]; do
+    TO=$((FROM + 8)); [ $TO -gt $NSEEDS ] && TO=$NSEEDS
+    ( cd sim/c18_miri && MIRIFLAGS="-Zmiri-many-seeds=$FROM..$TO -Zmiri-preemption-rate=0.1" timeout -k 10 "${VERIF_MIRI_TIMEOUT:-600}" cargo +nightly miri run --offline "${CARGO_CFG[@]}" ) >> target/c18_miri.log 2>&1
+    MIRI_RC=$?
+    [ $MIRI_RC -eq 124 ] && echo "miri run of seeds $FROM..$TO timed out after ${VERIF_MIRI_TIMEOUT:-600}s" >> target/c18_miri.log
+    [ $MIRI_RC -ne 0 ] && break
+    FROM=$TO
+  done
   MIRI_SEEDS=$NSEEDS
   if [ $MIRI_RC -ne 0 ]; then
     if grep -qE 'Data race detected|Undefined Behavior|differ' target/c18_miri.log; then
